@@ -38,6 +38,8 @@ func limitf(format string, a ...interface{}) {
 }
 
 type Engine struct {
+	transSort  *string
+	allocNames []string
 	baseLocals map[string][]string // function -> "name|type" of its locals on the recorded baseline
 	pkg        *packages.Package
 	fset       *token.FileSet
@@ -107,6 +109,7 @@ type FuncCtx struct {
 	contract      *Contract
 	decls         []string
 	nfresh        int
+	inCallPre     bool // evaluating a callee's requires clause at a call site
 	obls          []*Obligation
 	props         []string
 	loopOrd       map[ast.Node]int
@@ -137,7 +140,7 @@ type FuncCtx struct {
 	callOrd       map[*ast.CallExpr]int
 	inAtCall      bool
 	atLit         map[*Clause]*ast.CallExpr
-	renames       map[string]string // baseline local name -> current name (pure renaming)
+	renames       map[string]string   // baseline local name -> current name (pure renaming)
 	sliceAlias    map[*types.Var]bool // local slice assigned from another slice (element, sub-slice, variable)
 	specPostDepth int
 	loopEntry     *State
